@@ -23,7 +23,7 @@ def one(diff):
     os.rmdir(wt)
     out = {"diff": os.path.basename(diff)}
     try:
-        rc, o = sh(["git", "-C", "/repo", "worktree", "add", "-q", "--detach", wt, "HEAD"])
+        rc, o = sh(["git", "-C", "/repo", "worktree", "add", "-q", "--detach", wt, os.environ.get("EVAL_BASE", "HEAD")])
         if rc:
             return dict(out, error="worktree: " + o[-200:])
         rc, o = sh(["git", "-C", wt, "apply", diff])
